@@ -21,6 +21,7 @@ import (
 	"strings"
 	"sync"
 	"sync/atomic"
+	"testing/synctest"
 	"time"
 )
 
@@ -531,9 +532,24 @@ func (s *Sched) Abort() {
 // that are sleeping during teardown would otherwise count as leaked).
 func (s *Sched) Finish() {
 	s.Abort()
-	for i := 0; i < 240 && s.Live() > 0; i++ {
+	for i := 0; i < 240; i++ {
+		// Let every woken task run until it has exited or is durably blocked before looking: without
+		// this the answer of Live() depends on how far the woken goroutines got on other threads,
+		// and a run could take one simulated minute more in one process than in another.
+		synctest.Wait()
+		if s.Live() == 0 {
+			return
+		}
 		time.Sleep(time.Minute)
 	}
+}
+
+// AbortedTask reports whether the caller is a goroutine other than the root while the run is being
+// torn down. What such a goroutine still does (closing connections, returning from handlers) runs
+// truly concurrently with the root, so it must not leave traces in the event log.
+func AbortedTask() bool {
+	s := cur.Load()
+	return s != nil && s.aborting.Load() && curGID() != s.rootGID
 }
 
 // Aborting reports whether the run is being torn down.
